@@ -1,4 +1,5 @@
 import MpVerif.C13.LemmasInt
+import MpVerif.C13.LemmasStep
 /-!
 # C13 — piecewise-linear approximations: what is proved
 
@@ -57,6 +58,70 @@ theorem C13_increasing (o : FOps) (hl : Lawful o) (f : Fn) (hb : ∀ b ∈ f.bps
 theorem C13_increasing_exact (sq : Rat → Rat) (f : Fn) (p : Params) (fuel : Nat) (r : Res)
     (h : run (exactOps sq) f p fuel = .ok r) : r.xs.Pairwise (· < ·) :=
   C13_increasing (exactOps sq) (Lawful.exact sq) f (fun _ _ => rfl) p fuel r h
+
+/-! ## the step control: an accepted step passed the error test
+
+(What the test guarantees about the TRUE error on the accepted segment is in `ChordRun.lean`:
+`C13_accepted_step_mid_test_exact`, `C13_accepted_step_error_bound_exact`, `C13_accepted_step_tolerance_exact`.) -/
+
+/-- **Every step accepted by the step control passed the generator's error test**, for every arithmetic and every
+function record: the step `r` returned by `DecreaseStepWhileErrorTooBig` either left the function value unchanged
+(the C++ then skips the test), or the candidate list of `maxErrorRelAbove1` on the segment `[x0, x0 ⊕ r]` — both ends,
+the middle-value point `inverse_1st(slope)`, tilted-slope points, pre-images of ±1 — has every per-point error
+(absolute inside `[-1,1]`, relative outside) `≤ ubErr`; the segment is non-degenerate and `ubErr > 0`. -/
+theorem C13_accepted_step_passed_test (o : FOps) (f : Fn) (ubErr : Rat) (i : Int) (x0 f0 : Rat) (fuel : Nat) (dx r : Rat)
+    (h : decStep o f ubErr i x0 f0 fuel dx = .ok r) :
+    ∃ f1, f.eval (fadd o x0 r) = .fin f1 ∧
+      (f1 = f0 ∨ ∃ pts, candPoints o f ubErr i x0 f0 (fadd o x0 r) f1 = .ok pts ∧
+        (∀ p ∈ pts, pointErr o p.1 p.2 ≤ ubErr) ∧ (f1, f1) ∈ pts ∧ x0 < fadd o x0 r ∧ 0 < ubErr ∧
+        ∀ xm fm, f.invd1 i (slopeOf o x0 f0 (fadd o x0 r) f1) = .fin xm → f.eval xm = .fin fm →
+          pointErr o fm (fadd o f0 (fmul o (fsub o xm x0) (slopeOf o x0 f0 (fadd o x0 r) f1))) ≤ ubErr) := by
+  obtain ⟨f1, hf1, hor⟩ := decStep_accept f ubErr i x0 f0 fuel dx r h
+  refine ⟨f1, hf1, ?_⟩
+  rcases hor with hflat | ⟨pts, hpts, hle⟩
+  · exact Or.inl hflat
+  · right
+    obtain ⟨hlt, hub, f0', f1', _, he1, _, hm1, hmid⟩ := candPoints_spec hpts
+    rw [hf1] at he1; cases he1
+    have hge : ∀ p ∈ pts, pointErr o p.1 p.2 ≤ errMaxOf o pts := (errMaxOf_ge o pts).2
+    have hall : ∀ p ∈ pts, pointErr o p.1 p.2 ≤ ubErr := by
+      intro p hp
+      have h1 : pointErr o p.1 p.2 ≤ errMaxOf o pts := hge p hp
+      exact Rat.le_trans h1 hle
+    refine ⟨pts, hpts, hall, hm1, hlt, hub, ?_⟩
+    intro xm fm hxm hfm
+    have hmem := hmid xm fm hxm hfm
+    have hthis := hall _ hmem
+    dsimp only at hthis
+    exact hthis
+
+/-- … and every iteration of the breakpoint loop of `ApproximateSubinterval` offers to `AddPoint` exactly the end of
+such an accepted step (or the subinterval end `ub`, when the step ends within `1e-6` of it) -/
+theorem C13_subLoop_step_tested (o : FOps) (f : Fn) (ubErr : Rat) (i : Int) (ub : Rat) (sf fuel : Nat)
+    (x0 f0 : Rat) (pl r : PL) (h : subLoop o f ubErr i ub sf (fuel + 1) x0 f0 pl = .ok r) :
+    ∃ dx1 dx2 dx3 f1, initStep o f ubErr ub x0 = .ok dx1 ∧ incStep o f ubErr i ub x0 f0 sf dx1 = .ok dx2 ∧
+      decStep o f ubErr i x0 f0 sf dx2 = .ok dx3 ∧
+      f.eval (if snapCond o ub (fadd o x0 dx3) then ub else fadd o x0 dx3) = .fin f1 ∧
+      (r = addPoint o pl (if snapCond o ub (fadd o x0 dx3) then ub else fadd o x0 dx3) f1 ∨
+       subLoop o f ubErr i ub sf fuel (if snapCond o ub (fadd o x0 dx3) then ub else fadd o x0 dx3) f1
+         (addPoint o pl (if snapCond o ub (fadd o x0 dx3) then ub else fadd o x0 dx3) f1) = .ok r) := by
+  unfold subLoop at h
+  obtain ⟨dx1, h1, h⟩ := bind_ok h
+  obtain ⟨dx2, h2, h⟩ := bind_ok h
+  obtain ⟨dx3, h3, h⟩ := bind_ok h
+  dsimp only at h
+  refine ⟨dx1, dx2, dx3, ?_⟩
+  generalize (if snapCond o ub (fadd o x0 dx3) then ub else fadd o x0 dx3) = x1 at h ⊢
+  obtain ⟨f1, hf1, h⟩ := bind_ok h
+  have e1 : f.eval x1 = .fin f1 := by
+    unfold getFin at hf1; split at hf1
+    · have := pure_ok hf1; subst this; assumption
+    · exact (throw_ne_ok hf1).elim
+    · exact (throw_ne_ok hf1).elim
+  refine ⟨f1, h1, h2, h3, e1, ?_⟩
+  split at h
+  · exact Or.inr h
+  · exact Or.inl (pure_ok h).symm
 
 /-! ## first / last breakpoint versus the reported domain
 
@@ -147,10 +212,12 @@ theorem C13_endpoints_counterexample_skip :
 
 /-! ## periodic reduction -/
 
-/-- **Periodic cover** (exact arithmetic): the factor range reported by `InitPeriodic` is wide enough: every
+/-- **Periodic cover, exact arithmetic only** (with rounding, `floor`/`ceil` of a rounded quotient can be off by one at
+an exact multiple of the period, so the statement is not claimed for the IEEE instance; the check's oracle tests the
+cover on every periodic output of the real code): the factor range reported by `InitPeriodic` is wide enough: every
 `x` of the requested interval is `n·period + rem` with `n` an integer inside the reported factor range and
 `rem` inside the base period `[perLb, perUb)`. -/
-theorem C13_periodic_cover (sq : Rat → Rat) (f : Fn) (d : Dom) (res : Res) (bps : List Rat)
+theorem C13_periodic_cover_exact (sq : Rat → Rat) (f : Fn) (d : Dom) (res : Res) (bps : List Rat)
     (h : initPeriodic (exactOps sq) f d = .ok (res, bps)) (hp : f.perLb < f.perUb)
     (x : Rat) (hl : d.lbx ≤ x) (hu : x ≤ d.ubx) :
     ∃ n : Int, res.facLb ≤ (n : Rat) ∧ (n : Rat) ≤ res.facUb ∧
@@ -173,18 +240,20 @@ theorem C13_periodic_cover (sq : Rat → Rat) (f : Fn) (d : Dom) (res : Res) (bp
 
 /-! ## integer arguments -/
 
-/-- **Exactness at the integers** (exact arithmetic): the point list built by the integrality shortcut of
+/-- **Exactness at the integers**, for every arithmetic whose integer steps are exact on the points concerned
+(`IntOK o x0 N`: `x0 ⊕ j = x0 + j` and the 1e-4 keep test passes between consecutive integers — proved for exact
+arithmetic, `intOK_exact`, and for the IEEE instance on integers below 2^52, `C13_intOK_ieee`): the point list built by the integrality shortcut of
 `ConsiderIntegrality` — `AddPoint(x0+k, f(x0+k))` for `k = 0 … N-1`, *including* `AddPoint`'s rule that merges
 runs of equal ordinates — represents `f` exactly at every integer `x0 + j`, `j < N`: the piecewise-linear
 function through the stored points takes the value `f(x0+j)` there. -/
-theorem C13_int_exact (sq : Rat → Rat) (f : Fn) (x0 : Rat) (N : Nat) (r : PL)
-    (h : intPoints (exactOps sq) f x0 N 0 [] = .ok r) (j : Nat) (hj : j < N) :
+theorem C13_int_exact_lawful (o : FOps) (f : Fn) (x0 : Rat) (N : Nat) (hok : IntOK o x0 N) (r : PL)
+    (h : intPoints o f x0 N 0 [] = .ok r) (j : Nat) (hj : j < N) :
     ∃ v, f.eval (x0 + (j : Rat)) = .fin v ∧ plEvalR r (x0 + (j : Rat)) = v := by
-  match N, h, hj with
-  | n + 1, h, hj =>
+  match N, hok, h, hj with
+  | n + 1, hok, h, hj =>
     unfold intPoints at h
     obtain ⟨y, hy, h⟩ := bind_ok h
-    have hx : fadd (exactOps sq) x0 ((0 : Nat) : Rat) = x0 + ((0 : Nat) : Rat) := rfl
+    have hx : fadd o x0 ((0 : Nat) : Rat) = x0 + ((0 : Nat) : Rat) := hok.add 0 (by omega)
     rw [hx] at h hy
     have hev : f.eval (x0 + ((0 : Nat) : Rat)) = .fin y := by
       unfold getFin at hy
@@ -192,9 +261,15 @@ theorem C13_int_exact (sq : Rat → Rat) (f : Fn) (x0 : Rat) (N : Nat) (r : PL)
       · have := pure_ok hy; subst this; assumption
       · exact (throw_ne_ok hy).elim
       · exact (throw_ne_ok hy).elim
-    have hI := intPoints_invI sq f x0 n 0 _ r (invI_base (sq := sq) f x0 y hev) h
+    have hI := intPoints_invI o f x0 (n + 1) hok n 0 _ r (by omega) (invI_base o f x0 y hev) h
     obtain ⟨_, _, _, _, _, _, hall⟩ := hI
     exact hall j (by omega)
+
+/-- the same over exact arithmetic, with no hypothesis on the arithmetic -/
+theorem C13_int_exact (sq : Rat → Rat) (f : Fn) (x0 : Rat) (N : Nat) (r : PL)
+    (h : intPoints (exactOps sq) f x0 N 0 [] = .ok r) (j : Nat) (hj : j < N) :
+    ∃ v, f.eval (x0 + (j : Rat)) = .fin v ∧ plEvalR r (x0 + (j : Rat)) = v :=
+  C13_int_exact_lawful (exactOps sq) f x0 N (intOK_exact sq x0 N) r h j hj
 
 theorem truncInt_intCast (n : Int) (h : 0 ≤ n) : truncInt (n : Rat) = n := by
   unfold truncInt
